@@ -25,6 +25,7 @@ import (
 	"encoding/hex"
 	"encoding/json"
 	"fmt"
+	"io"
 	"os"
 	"os/exec"
 	"path/filepath"
@@ -46,6 +47,8 @@ import (
 	"github.com/relab/hotstuff/internal/proto/hotstuffpb"
 	"github.com/relab/hotstuff/internal/proto/kauripb"
 	"github.com/relab/hotstuff/internal/tree"
+	"github.com/relab/hotstuff/metrics"
+	"github.com/relab/hotstuff/metrics/types"
 	"github.com/relab/hotstuff/protocol"
 	"github.com/relab/hotstuff/protocol/comm"
 	"github.com/relab/hotstuff/protocol/consensus"
@@ -149,6 +152,8 @@ type c10World struct {
 	qcOrph2      hotstuff.QuorumCert
 	alt          []*hotstuff.Block           // alt[1..6]: a second honest chain with unusual command batches
 	altQC        []hotstuff.QuorumCert
+	sparse       []*hotstuffpb.Block         // a certified chain given as wire blocks with optional parts absent
+	sparseWhat   []string
 }
 
 // genuine aggregate QC of view v whose timeouts (replicas 1, 3, 4) all report qcs[i]
@@ -288,6 +293,40 @@ func c10NewWorld(t *testing.T, scheme string) *c10World {
 		b := hotstuff.NewBlock(w.alt[i-1].Hash(), w.altQC[i-1], batches[i], hotstuff.View(i), c10Ldr)
 		w.alt = append(w.alt, b)
 		w.altQC = append(w.altQC, w.mkQC(b, 1, 3, 4))
+	}
+	// a chain built from wire blocks in which the optional parts that the vote path tolerates are absent or odd:
+	// each block is what BlockFromProto makes of the wire block, and is certified as such
+	ph, pq := g.Hash(), w.qcs[0]
+	for i := 1; i <= 7; i++ {
+		pb := &hotstuffpb.Block{Parent: append([]byte{}, ph[:]...), QC: hotstuffpb.QuorumCertToProto(pq), View: uint64(i), Proposer: uint32(c10Ldr)}
+		what := "ordinary"
+		switch i {
+		case 1:
+			what = "no Commands, no Timestamp"
+		case 2:
+			pb.Commands, pb.Timestamp = &clientpb.Batch{}, &timestamppb.Timestamp{Seconds: 1 << 40, Nanos: 5}
+			what = "empty Commands, timestamp far in the future"
+		case 3:
+			pb.Commands, pb.Timestamp = &clientpb.Batch{Commands: []*clientpb.Command{{}, {}}}, &timestamppb.Timestamp{Seconds: -(1 << 40)}
+			what = "two zero-valued commands, timestamp far in the past"
+		case 4:
+			pb.Timestamp = &timestamppb.Timestamp{Seconds: 1 << 62, Nanos: -7}
+			what = "no Commands, timestamp out of range"
+		default:
+			pb.Commands, pb.Timestamp = c10Batch(20+i), timestamppb.Now()
+		}
+		raw, err := proto.Marshal(pb)
+		if err != nil {
+			t.Fatal(err)
+		}
+		rb := &hotstuffpb.Block{}
+		if err := proto.Unmarshal(raw, rb); err != nil {
+			t.Fatal(err)
+		}
+		blk := hotstuffpb.BlockFromProto(rb)
+		w.sparse = append(w.sparse, pb)
+		w.sparseWhat = append(w.sparseWhat, what)
+		ph, pq = blk.Hash(), w.mkQC(blk, 1, 3, 4)
 	}
 	return w
 }
@@ -554,6 +593,16 @@ func c10NewReplica(t *testing.T, w *c10World, opt c10Opt) *c10Replica {
 	proposer := consensus.NewProposer(r.el, r.cfg, r.bc, r.states, r.rules, cm, r.voter, cmdCache, committer)
 	synchronizer.New(r.el, log, r.cfg, r.auth, leader, synchronizer.NewFixedDuration(time.Hour),
 		synchronizer.NewTimeoutRuler(r.cfg, r.auth), proposer, r.voter, r.states, snd)
+	// every metric of package metrics that a replica can enable (the client-latency metric ignores replica ids); the
+	// measurement ticker is removed again: tick events are injected by the streams instead of arriving every interval
+	mlog, err := metrics.NewJSONLogger(io.Discard, log)
+	if err != nil {
+		t.Fatal(err)
+	}
+	if err := metrics.Enable(r.el, log, mlog, c10Rut, time.Hour, metrics.NameViewTimeouts, metrics.NameThroughput, metrics.NameConsensusLatency, metrics.NameClientLatency); err != nil {
+		t.Fatal(err)
+	}
+	r.el.RemoveTicker(0)
 	srv := &Server{blockchain: r.bc, eventLoop: r.el, logger: log, config: r.cfg, id: c10Rut}
 	if opt.lat {
 		// what server.WithLatencies(id, locations) sets; one location for all, so that known peers are not delayed
@@ -2139,33 +2188,62 @@ func (x *c10Run) bursts(w *c10World, opts []c10Opt, rounds int) {
 // zero-valued commands, and one very large command is proposed, certified and committed: the committed batches reach
 // the command cache (Proposed) and ClientIO (Exec).  Then replays and an equivocating block follow.
 func (x *c10Run) batches(w *c10World, opts []c10Opt) {
+	type link struct {
+		pb   *hotstuffpb.Block
+		what string
+	}
+	names := []string{"", "empty batch", "no batch", "3000 commands with duplicates and zero values", "one 64 KiB command with maximal ids", "ordinary", "ordinary"}
+	var chainA []link
+	for i := 1; i <= 6; i++ {
+		chainA = append(chainA, link{hotstuffpb.BlockToProto(w.alt[i]), fmt.Sprintf("proposal of chain block %d (%s)", i, names[i])})
+	}
+	var chainB []link
+	for i, pb := range w.sparse {
+		chainB = append(chainB, link{pb, fmt.Sprintf("proposal of sparse-chain block %d (%s)", i+1, w.sparseWhat[i])})
+	}
 	for _, opt := range opts {
-		if opt.agg || opt.kauri || opt.mid || opt.aggSt > 0 {
+		if opt.mid || opt.aggSt > 0 {
 			continue
 		}
-		r := c10NewReplica(x.t, w, opt)
-		prop := func(b *hotstuff.Block, what string) *c10Msg {
-			return &c10Msg{kind: c10Propose, pb: hotstuffpb.ProposalToProto(hotstuff.ProposeMsg{ID: c10Ldr, Block: b}), ctxID: int(c10Ldr), label: what}
-		}
-		names := []string{"", "empty batch", "no batch", "3000 commands with duplicates and zero values", "one 64 KiB command with maximal ids", "ordinary", "ordinary"}
-		var msgs []*c10Msg
-		for i := 1; i <= 6; i++ {
-			msgs = append(msgs, prop(w.alt[i], fmt.Sprintf("proposal of chain block %d (%s)", i, names[i])))
-		}
-		msgs = append(msgs, prop(w.alt[3], "replay of the proposal of chain block 3 after it was committed"),
-			prop(hotstuff.NewBlock(w.alt[5].Hash(), w.altQC[5], &clientpb.Batch{Commands: []*clientpb.Command{{}}}, 6, c10Ldr), "second block for view 6 (equivocation) with a zero-valued command"))
-		for i, m := range msgs {
-			if x.step(r, "batch chain", i, m).panicked {
-				break
+		for ci, chain := range [][]link{chainA, chainB} {
+			r := c10NewReplica(x.t, w, opt)
+			seq := []string{"batch chain", "sparse chain"}[ci]
+			var msgs []*c10Msg
+			for i, l := range chain {
+				if opt.agg && i > 0 {
+					// fast-hotstuff moves to the next view on a timeout certificate only
+					msgs = append(msgs, &c10Msg{kind: c10NewView, pb: hotstuffpb.SyncInfoToProto(hotstuff.NewSyncInfoWith(w.tcs[hotstuff.View(i)])), ctxID: 3,
+						label: fmt.Sprintf("genuine TC for view %d", i)})
+				}
+				msgs = append(msgs, &c10Msg{kind: c10Propose, pb: &hotstuffpb.Proposal{Block: proto.Clone(l.pb).(*hotstuffpb.Block)}, ctxID: int(c10Ldr), label: l.what})
 			}
-		}
-		committed := r.states.CommittedBlock().Hash() == w.alt[3].Hash()
-		if !committed {
-			x.v.Note(fmt.Sprintf("%s %s: the chain with unusual batches was NOT committed (executed commands: %d)", w.scheme, opt, r.cio.CmdCount()))
-		}
-		x.v.CountN("stream:batches:commands-executed", int(r.cio.CmdCount()))
-		if committed {
-			x.v.Count("stream:batches:committed")
+			if ci == 0 {
+				msgs = append(msgs, &c10Msg{kind: c10Propose, pb: hotstuffpb.ProposalToProto(hotstuff.ProposeMsg{ID: c10Ldr, Block: w.alt[3]}), ctxID: int(c10Ldr), label: "replay of the proposal of chain block 3 after it was committed"},
+					&c10Msg{kind: c10Propose, pb: hotstuffpb.ProposalToProto(hotstuff.ProposeMsg{ID: c10Ldr, Block: hotstuff.NewBlock(w.alt[5].Hash(), w.altQC[5], &clientpb.Batch{Commands: []*clientpb.Command{{}}}, 6, c10Ldr)}),
+						ctxID: int(c10Ldr), label: "second block for view 6 (equivocation) with a zero-valued command"})
+			}
+			crashed := false
+			for i, m := range msgs {
+				if x.step(r, seq, i, m).panicked {
+					crashed = true
+					break
+				}
+			}
+			// the measurement tick of the metrics: every metric reports what it collected from the commits above
+			if !crashed {
+				tickOK := c10Returns(func() {
+					r.el.AddEvent(types.TickEvent{LastTick: time.Now().Add(-time.Second)})
+					r.drain()
+				})
+				x.oracle(tickOK, "panic:metrics-tick", "the metrics tick after committing the "+seq+" panics", map[string]any{"scheme": w.scheme, "config": opt.String(), "sequence": seq})
+			}
+			cv := r.states.CommittedBlock().View()
+			if cv < 3 {
+				x.v.Note(fmt.Sprintf("%s %s: the %s was committed only up to view %d (executed commands: %d)", w.scheme, opt, seq, cv, r.cio.CmdCount()))
+			} else {
+				x.v.Count("stream:batches:committed")
+			}
+			x.v.CountN("stream:batches:commands-executed", int(r.cio.CmdCount()))
 		}
 	}
 }
@@ -2567,7 +2645,7 @@ func TestVerifC10(t *testing.T) {
 		tB := time.Now()
 		x.bursts(w, asyncOpts, v.Pick(6, 60))
 		tBa := time.Now()
-		x.batches(w, []c10Opt{{}, {cache: true}, {simple: true}, {async: true}, {fetch: true}})
+		x.batches(w, []c10Opt{{}, {cache: true}, {simple: true}, {async: true}, {fetch: true}, {agg: true}, {kauri: true}, {lat: true}})
 		tI := time.Now()
 		x.ids(w, []c10Opt{{mid: true}, {cache: true, mid: true}, {agg: true, mid: true}, {kauri: true, mid: true}, {async: true, mid: true},
 			{lat: true}, {lat: true, mid: true}, {lat: true, agg: true, mid: true}, {lat: true, kauri: true}, {lat: true, kauri: true, mid: true}})
